@@ -560,12 +560,14 @@ def r7_plumbing(ctx, m, me) -> None:
                         good = good and q.kind in ("fall", "continue") and not q.effects
                     else:
                         good = good and q.kind == "return" and q.value_text() == "True"
+            allform = f"all((isinstance({h_}[c0].op, {boundary}) for c0 in {it}))"
             for p in ps:
-                # any() form
-                if (p.kind == "return" and p.value_text() == anyform) or (p.kind == "return" and p.value_text() == "True" and p.has_test(anyform, True) is not None):
+                # any() form (canonically `not all(<is boundary>)`)
+                if (p.kind == "return" and p.value_text() in (anyform, f"not {allform}")) or (p.kind == "return" and p.value_text() == "True" and (
+                        p.has_test(anyform, True) is not None or p.has_test(allform, False) is not None)):
                     good = True
             ok = ok and good
-        ok = ok and any(p.kind == "return" and p.value_text() in ("False",) or p.kind == "return" and p.value_text().startswith("any(") for p in ps)
+        ok = ok and any(p.kind == "return" and p.value_text() in ("False",) or p.kind == "return" and p.value_text().startswith(("any(", "not all(")) for p in ps)
     ctx.check(ok, "C12.R7", "_needs_order_key: excludes exactly Input/Output endpoints", m.path, nk.lineno if nk else 1, "", nk)
 
 
